@@ -879,10 +879,11 @@ def _ck(a):
 
 
 class NoMutationOracle(Observer):
-    WATCH = ("op", "inplace", "backward", "terminal", "setshape", "clear", "null_grad", "nnet", "readgrad", "save", "load")
+    WATCH = ("op", "inplace", "backward", "terminal", "setshape", "clear", "null_grad", "nnet", "readgrad", "save", "load", "conv")
 
     def attach(self, w):
         self.pre = None
+        self.window = False  # right after a judged backward: conversions (t.copy() ...) are re-checked for aliasing
 
     def before(self, w, ev):
         if ev["k"] not in self.WATCH:
@@ -957,13 +958,23 @@ class NoMutationOracle(Observer):
                 self.seeds.append(_wr.ref(w.A[seed["a"]]))
             if "t" in seed and seed["t"] in w.T:
                 self.seeds.append(_wr.ref(w.T[seed["t"]].data))
+        if k not in ("readgrad", "conv", "backward"):
+            self.window = False
         if k == "backward" and out.status == "ok" and w.tracking:
+            self.window = False
             rec = w.last_backward
             if rec is not None and rec.get("tainted"):
                 w.count("c12.alias_unjudged.partially_cleared")  # C09's territory
                 self.poisoned = True  # gradients left behind by it stay around
             elif not getattr(self, "poisoned", False):
                 self.alias_check(w, ev)
+                self.window = not w.violations
+        elif k == "conv" and out.status == "ok" and self.window and w.tracking:
+            # a copy / conversion of a tensor that holds a gradient: the new tensor's gradient is its own
+            self.alias_check(w, self.window_ev if hasattr(self, "window_ev") else {})
+            w.probe("c12.alias_checked_after_conversion")
+        if k == "backward":
+            self.window_ev = ev
 
     @staticmethod
     def _lasttag(w, ev):
